@@ -171,14 +171,19 @@ func (sc *scenario) container(t *rapid.T, ents []entry) tg.UpdatesClass {
 	// leaves a seq gap
 	seq := 0
 	if rapid.IntRange(0, 2).Draw(t, "withSeq") == 0 {
+		// (draws never happen under the world mutex: a draw can panic out of the
+		// property while rapid shrinks, and a mutex left locked wedges the bubble)
+		lost := rapid.IntRange(0, 4).Draw(t, "seqLost") == 0
 		sc.w.mu.Lock()
-		if rapid.IntRange(0, 4).Draw(t, "seqLost") == 0 {
+		if lost {
 			sc.w.seq++ // an earlier container of the sequence was lost
-			sc.class("seq-gap")
 		}
 		sc.w.seq++
 		seq = sc.w.seq
 		sc.w.mu.Unlock()
+		if lost {
+			sc.class("seq-gap")
+		}
 		sc.class("seq")
 	}
 	switch rapid.IntRange(0, 2).Draw(t, "containerKind") {
